@@ -635,7 +635,7 @@ theorem parseCtx_spells (env : Env R) (hd : env.decrypt = none) (v : Prim R) :
     have hpos : pos + g.length + (60 :: 60 :: g0 ++ r).length = pos + g.length + 2 + g0.length + r.length := by simp; omega
     rw [hpos] at hah hend
     have hdict := parseDict_spells env hd kvs r hr hwf.1 hsz g0 rest (pos + g.length + 2) f ctx (depth - 1) [] hg0 hs2
-      hah (by simpa [keysOf] using hwf.2) (by simp [keysOf]) (by omega) (by omega)
+      (by simpa [keysOf] using hwf.2) (by simp [keysOf]) (by omega) (by omega)
     obtain ⟨pk, hpk, hpks⟩ := dictFollowOK_of_ahead hend hah
     have hpks' : (slice buf pk.1 pk.2 == kwStream) = false := by simpa using hpks
     have e1 : (([60, 60] : List UInt8) == [60, 60]) = true := by decide
@@ -687,11 +687,11 @@ theorem parseArray_spells (env : Env R) (hd : env.decrypt = none) (xs : List (Pr
 theorem parseDict_spells (env : Env R) (hd : env.decrypt = none) (kvs : List (List UInt8 × Prim R)) :
     ∀ (r : List UInt8), SpellsEntries env.parseReal kvs r → WFE kvs → ∀ {buf : Buf}, buf.size ≤ 2147483647 →
       ∀ (g rest : List UInt8) (pos fuel : Nat) (ctx : Option (Nat × Nat)) (depth : Nat) (acc : Dict R), Gap g →
-      Suffix buf pos (g ++ r ++ rest) → Ahead buf (pos + g.length + r.length) →
+      Suffix buf pos (g ++ r ++ rest) →
       (keysOf kvs).Nodup → (∀ k ∈ keysOf kvs, k ∉ keysOf acc) →
       needE kvs ≤ fuel → vdepthE kvs ≤ depth →
       parseDict env buf fuel pos ctx depth acc = .ok (acc ++ kvs, pos + g.length + r.length) := by
-  intro r hr hwf buf hsz g rest pos fuel ctx depth acc hg hs hah hnd hdisj hfuel hdepth
+  intro r hr hwf buf hsz g rest pos fuel ctx depth acc hg hs hnd hdisj hfuel hdepth
   cases kvs with
   | nil =>
     obtain ⟨f, rfl⟩ : ∃ f, fuel = f + 1 := ⟨fuel - 1, by simp [needE] at hfuel; omega⟩
@@ -725,11 +725,10 @@ theorem parseDict_spells (env : Env R) (hd : env.decrypt = none) (kvs : List (Li
     have hpos : pos + g.length + (47 :: kb ++ g1 ++ tv ++ g2 ++ r').length =
         pos + g.length + (47 :: kb).length + g1.length + tv.length + g2.length + r'.length := by
       simp; omega
-    rw [hpos] at hah
     simp only [keysOf, List.map_cons, List.nodup_cons] at hnd
     have hk : k ∉ keysOf acc := hdisj k (by simp [keysOf])
     have hkvs := parseDict_spells env hd kvs r' hr' hwf.2.2 hsz g2 rest
-      (pos + g.length + (47 :: kb).length + g1.length + tv.length) f ctx depth (acc ++ [(k, v)]) hg2 hs3 hah hnd.2
+      (pos + g.length + (47 :: kb).length + g1.length + tv.length) f ctx depth (acc ++ [(k, v)]) hg2 hs3 hnd.2
       (by
         intro k' hk' hc
         simp [keysOf] at hc
